@@ -21,6 +21,7 @@ import (
 	"runtime/debug"
 	"runtime/metrics"
 	"strings"
+	"sync/atomic"
 	"syscall"
 	"testing"
 	"time"
@@ -307,6 +308,22 @@ type c03Ctx struct {
 	cjson string
 }
 
+// per-case watchdog: the expected case time is micro- to milliseconds; a case that runs for 120 s is
+// reported as a hang (the worker exits, the driver attributes it to the case recorded with r.Cur).
+var c03CaseStart atomic.Int64
+
+func c03Watchdog() {
+	go func() {
+		for {
+			time.Sleep(2 * time.Second)
+			if t := c03CaseStart.Load(); t != 0 && time.Now().UnixNano()-t > int64(120*time.Second) {
+				fmt.Println("c03 watchdog: case exceeded 120 s without returning: test timed out (hang)")
+				os.Exit(3)
+			}
+		}
+	}()
+}
+
 func (x *c03Ctx) cur(site string) {
 	if x.cjson == "" {
 		x.cjson = fmt.Sprintf(`,"case":{"fam":%q,"hex":%q,"kind":%q,"seed":%q,"pos":%d,"val":%d,"cut":%d,"level":%d,"size":%d}}`,
@@ -531,6 +548,7 @@ func c03Seeds() []c03Seed {
 	add("fallthrough", (&c03Asm{}).ins(1).ins(1).ins(0).blob(0))
 	add("halt", (&c03Asm{}).ins(50, 0).blob(0)) // jump_ind r0 = 0xFFFF0000
 	add("loop", (&c03Asm{}).ins(1).ins(40, 0xFF).blob(0))
+	add("spin", (&c03Asm{}).ins(40, 0).blob(0)) // jump to itself: terminates only by running out of gas
 	add("jump-fwd", (&c03Asm{}).ins(40, 3).ins(0).ins(1).ins(0).blob(0))
 	add("jump-table", (&c03Asm{}).ins(51, 2, 2).ins(50, 2).ins(0).ins(1).ins(0).ins(0).blob(1, 6))
 	add("jump-table-w2", (&c03Asm{}).ins(51, 2, 4).ins(50, 2).ins(0).ins(1).ins(0).ins(0).blob(2, 5, 6))
@@ -677,6 +695,7 @@ func TestVerif_C03(t *testing.T) {
 		return
 	}
 	th := r.Thorough()
+	c03Watchdog()
 	idx := uint64(0)
 	famT := map[string]float64{}
 	famN := map[string]float64{}
@@ -693,7 +712,9 @@ func TestVerif_C03(t *testing.T) {
 		}
 		r.Space(1)
 		t0 := time.Now()
+		c03CaseStart.Store(t0.UnixNano())
 		c03RunCase(r, c)
+		c03CaseStart.Store(0)
 		famT[c.Fam] += time.Since(t0).Seconds()
 		famN[c.Fam]++
 	}
@@ -830,7 +851,7 @@ func TestVerif_C03(t *testing.T) {
 		}
 	}
 	// standard-format seeds: the data wrapper of two seeds, every prefix and substitution
-	for _, si := range []int{6, 10} {
+	for _, si := range []int{7, 11} { // jump-table, memory
 		p := c03WrapData(seeds[si].blob)
 		stdLevel := vlib.Pick(r, 0, 2)
 		for cut := 0; cut <= len(p); cut++ {
